@@ -1040,6 +1040,123 @@ def opsflow(run, fx):
         run.broken('TABLETS', 'client ops', 'expected gr_make_face_with_ops and gr_make_face_with_seg_cache_and_ops, found %d entry points with a gr_face_ops parameter' % n, '')
 
 
+def codemove_exec(run, fx):
+    """OWNFIELD by bounded execution (rules/ordint.py): vm::Machine::Code hands its buffer on when it is copied or assigned (the `_own`
+    flag is mutable for that purpose).  The copy constructor and operator= are interpreted for an owning and a non-owning source (and,
+    for operator=, an owning / non-owning / empty destination): afterwards EXACTLY ONE of the two objects owns the source's buffer when
+    the source did, none when it did not; a buffer the destination owned before is freed exactly once, nothing else is."""
+    from . import ordint as O
+    PC = 'graphite2::vm::Machine::Code::'
+    rec = fx.record('graphite2::vm::Machine::Code')
+    cc = [f for f in fx.fns_named(PC + 'Code') if len(f.f.get('params') or []) == 1 and 'Code' in (f.f['params'][0].get('t') or '') and not f.f.get('implicit')]
+    asg = fx.fns_named(PC + 'operator=')
+    inst = 'copying / assigning a Code leaves exactly one owner of its buffer (interpreted)'
+    if len(cc) != 1 or len(asg) != 1:
+        run.broken('OWNFIELD', inst, 'copy constructor / operator= of vm::Machine::Code not found (%d, %d)' % (len(cc), len(asg)))
+        return
+
+    def mk(own, buf, count):
+        r = O.Rec()
+        for f in rec['fields']:
+            r[PC + f['n']] = O.Ptr(None) if f.get('ptr') else 0
+        r[PC + '_code'] = buf
+        r[PC + '_data'] = buf
+        r[PC + '_own'] = own
+        r[PC + '_instr_count'] = count
+        return r
+    cases = 0
+    try:
+        for src_own in (True, False):
+            for dst in ('ctor', 'empty', 'owning', 'borrowing'):
+                sbuf, dbuf = O.It(O.Vec([1, 2, 3]), 0), O.It(O.Vec([7, 8]), 0)
+                src = mk(src_own, sbuf, 3)
+                freed = []
+                nat = {'free': lambda I, f, e, obj, a, freed=freed: freed.append(I.rv(a[0]))}
+                it = O.Interp(fx, natives=nat)
+                it.MAX_STEPS = 3000
+                if dst == 'ctor':
+                    d = mk(False, O.Ptr(None), 0)
+                    it.call(cc[0], d, [O.LV([src], 0)])
+                else:
+                    d = mk(dst == 'owning', dbuf if dst != 'empty' else O.Ptr(None), 2 if dst != 'empty' else 0)
+                    it.call(asg[0], d, [O.LV([src], 0)])
+                cases += 1
+                desc = '%s source, %s' % ('owning' if src_own else 'borrowing', {'ctor': 'copy construction', 'empty': 'assignment to an empty Code', 'owning': 'assignment to a Code that owns a buffer',
+                                                                              'borrowing': 'assignment to a Code that borrows its buffer'}[dst])
+                owners = int(bool(d[PC + '_own'])) + int(bool(src[PC + '_own']))
+                if d[PC + '_code'] is not sbuf and not (isinstance(d[PC + '_code'], O.It) and d[PC + '_code'].vec is sbuf.vec):
+                    run.violated('OWNFIELD', inst, asg[0].where(), '%s: the destination does not point at the source\'s program afterwards' % desc)
+                    return
+                if owners != (1 if src_own else 0):
+                    run.violated('OWNFIELD', inst, (cc[0] if dst == 'ctor' else asg[0]).where(), '%s: afterwards %d of the two objects own the buffer, expected %d -- %s' %
+                                 (desc, owners, 1 if src_own else 0, 'nobody frees it: one heap block per pass constraint survives gr_face_destroy' if owners == 0 else 'it is freed twice'))
+                    return
+                if src_own and not d[PC + '_own']:
+                    run.violated('OWNFIELD', inst, asg[0].where(), '%s: ownership stays with the source (a temporary that is about to die): the destination keeps a dangling pointer' % desc)
+                    return
+                wantfree = 1 if dst == 'owning' else 0
+                if len(freed) != wantfree or (wantfree and not (isinstance(freed[0], O.It) and freed[0].vec is dbuf.vec)):
+                    run.violated('OWNFIELD', inst, asg[0].where(), '%s: %d buffer(s) are freed, expected %d (the destination\'s own old buffer, nothing else)' % (desc, len(freed), wantfree))
+                    return
+    except (AnalysisBroken, O.Violation) as ex:
+        run.broken('OWNFIELD', inst, str(getattr(ex, 'what', ex)), asg[0].where())
+        return
+    run.held('OWNFIELD', inst, asg[0].where(), '%d abstract executions' % cases)
+
+
+def logclose(run):
+    """'the library holds no allocation after everything is destroyed', for the build with tracing compiled in: a log file opened by
+    gr_start_logging is closed only by gr_stop_logging (Face::setLogger deletes the json writer of the log it replaces, not the FILE
+    underneath).  So gr_start_logging stops the running log first: on every path to the place where the new log is installed
+    (Face::setLogger / the store to global_log) a gr_stop_logging call for the same target has been passed."""
+    from .util import reaches_avoiding
+    fx = run.facts('tracelog')
+    fn = fx.one('gr_start_logging')
+    inst = '[tracelog] gr_start_logging stops the running log before it installs a new one'
+    stops = calls_in(fn, 'gr_stop_logging')
+    installs = [e for e in calls_in(fn) if (e.get('fq') or '').endswith('Face::setLogger')]
+    installs += [e for _, e in fn.elements() if e['k'] == 'BinaryOperator' and e['op'] == '=' and fn.render(fn.strip(e['c'][0])).endswith('global_log')
+                 and not fn.is_null(e['c'][1])]
+    if not installs:
+        run.broken('OWNFIELD', inst, 'no Face::setLogger call / global_log store in gr_start_logging', fn.where())
+        return
+    entry_el = None
+    for b_ in [fn.entry] + list(fn.blocks):
+        if fn.blocks[b_]['el']:
+            entry_el = fn.blocks[b_]['el'][0]
+            if b_ == fn.entry:
+                break
+    bad = [e for e in installs if _reaches_from_entry(fn, e, stops)]
+    if bad:
+        run.violated('OWNFIELD', inst, fn.loc(bad[0]), 'gr_start_logging can install the new log at %s without having called gr_stop_logging first: the writer of the log that was running is deleted '
+                     '(or overwritten) but its FILE is never closed -- one descriptor and its buffers stay allocated after gr_stop_logging and gr_face_destroy' % fn.loc(bad[0]))
+    else:
+        run.held('OWNFIELD', inst, fn.loc(installs[0]), '%d install site(s), each behind a gr_stop_logging call on every path' % len(installs))
+
+
+def _reaches_from_entry(fn, target, avoid):
+    """is `target` reachable from the function entry without passing any element of `avoid`?"""
+    stop = {}
+    for a in avoid:
+        stop.setdefault(fn.block_of[a['i']], []).append(a)
+    tb = fn.block_of[target['i']]
+    seen, todo = set(), [fn.entry]
+    while todo:
+        b_ = todo.pop()
+        if b_ is None or b_ in seen:
+            continue
+        seen.add(b_)
+        if b_ == tb:
+            order = [x['i'] for x in fn.blocks[b_]['el']]
+            if not any(order.index(a['i']) < order.index(target['i']) for a in stop.get(b_, []) if a['i'] in order and target['i'] in order):
+                return True
+            continue
+        if b_ in stop:
+            continue
+        todo += list(fn.blocks[b_]['succ'])
+    return False
+
+
 def run(run):
     E = ER.setup(run)
     fx = E.fx
@@ -1063,6 +1180,9 @@ def run(run):
     guarded('OWNFIELD', lambda: overwrite(run, fx))
     guarded('OWNFIELD', lambda: freenull(run, fx))
     guarded('OWNLOCAL', lambda: ownlocal(run, fx, None))
+    guarded('OWNFIELD', lambda: codemove_exec(run, fx))
+    if not run.cfg_tag and not run.cfg_map:
+        guarded('OWNFIELD', lambda: logclose(run))
     from . import noescape
     guarded('NOESCAPE', lambda: noescape.check(run, E, 'NOESCAPE'))
     # build-time siblings: code under #ifndef GRAPHITE2_NFILEFACE must uphold the same ownership rules when the macro is set.
